@@ -449,6 +449,16 @@ def run_pack(case):
                     require(s.pos == len(exp), 'readlist did not consume the whole packed stream', pos=s.pos, expected=len(exp), fmt=ufmt)
             require(not is_raised(got), f'{how} of the packed bits raised', got=got, fmt=ufmt, packfmt=fmt_arg)
             require(values_match(got, ev), f'{how}(fmt) on pack(fmt, *values) does not return the values', got=got, expected=[e for _, e in ev][:12], fmt=ufmt)
+        if len(ast) > 1:
+            # the same format as a list of two strings split at a top-level position: it is one flat format, whichever item holds the length-less token
+            k = 1 + case.get('split', case['ws']) % (len(ast) - 1)
+            rl = Render(bs, 'unpack', case['ws'])
+            parts = [rl.nodes(ast[:k]), rl.nodes(ast[k:])]
+            for how in ('unpack', 'readlist'):
+                s = bs.ConstBitStream(res)
+                got = attempt(s.unpack if how == 'unpack' else s.readlist, parts, **rl.kw)
+                require(not is_raised(got), f'{how}([f1, f2]) of the packed bits raised', got=got, fmt=parts)
+                require(values_match(got, ev), f'{how}([f1, f2]) does not return the values that {how}("f1, f2") returns', got=got, expected=[e for _, e in ev][:12], fmt=parts)
     # ---- token string with embedded values == pack
     try:
         rs = Render(bs, 'string', case['ws'])
